@@ -549,11 +549,38 @@ Proof.
   - rewrite E in Hy. exact Hy.
 Qed.
 
+(* The same with an UNBOUNDED gap for a greedy pattern, where the end kept is the
+   longest: /aba?a.*abX/s on "abaabX" -- aba, nothing, abX is an occurrence; the head
+   piece is recorded as 0..4 and abX starts at 3.  Replayed on the implementation:
+   reports nothing (known finding C01:scan:chain-piece-variable-length-greedy). *)
+Definition missed_greedy_items : list re :=
+  [RCls (CByte 97); RCls (CByte 98); RRep (RCls (CByte 97)) 0 (Some 1) true; RCls (CByte 97);
+   RRep (RCls CAny) 0 None true; RCls (CByte 97); RCls (CByte 98); RCls (CByte 88)].
+Definition missed_greedy_data : bytes := [97; 98; 97; 97; 98; 88]%N.
+
+Theorem chain_complete_one_end_greedy_refuted :
+  exists items d, ~ chain_complete_starts false (split_at_large_gaps items) d
+                      (scan_chain_abs false true false (split_at_large_gaps items) d).
+Proof.
+  exists missed_greedy_items, missed_greedy_data. intro H.
+  assert (E : scan_chain_abs false true false (split_at_large_gaps missed_greedy_items) missed_greedy_data = [])
+    by (vm_compute; reflexivity).
+  assert (Em : memb 6 (ends false missed_greedy_data (join_chain (split_at_large_gaps missed_greedy_items)) 0) = true)
+    by (vm_compute; reflexivity).
+  destruct (H 0 6) as [y [Hy _]].
+  - apply ends_spec. exact (proj1 (memb_In _ _) Em).
+  - rewrite E in Hy. exact Hy.
+Qed.
+
 (* with every end of every piece fed to the same bookkeeping the occurrence is found:
    the miss is the piece matcher's, not the bookkeeping's *)
 Example missed_found_with_all_ends :
   map (fun y => (m_start y, m_end y)) (scan_chain_all_ends false false false (split_at_large_gaps missed_items) missed_data)
   = [(0, 207)]%N.
+Proof. vm_compute. reflexivity. Qed.
+Example missed_greedy_found_with_all_ends :
+  map (fun y => (m_start y, m_end y)) (scan_chain_all_ends false true false (split_at_large_gaps missed_greedy_items) missed_greedy_data)
+  = [(0, 6)]%N.
 Proof. vm_compute. reflexivity. Qed.
 
 (* The wide form: the pieces are widened, the gap stays a byte distance, so a match
